@@ -102,6 +102,62 @@ def decode : Bytes → Out × Bytes
 
 end Boost
 
+/-! ## `booster::locale::conv::utf_to_utf` (booster/booster/locale/encoding_utf.h) -/
+namespace Boost
+
+/-- `utf_traits<char>::encode(value,out)`: the bytes appended (`static_cast<char>` = low 8 bits).
+Defined on every 32-bit value, as the C++ is: the caller is expected to pass code points only. -/
+def encode (value : Nat) : Bytes :=
+  if Gen.Boost.encC1 value then [UInt8.ofNat (Gen.Boost.encE11 value)]
+  else if Gen.Boost.encC2 value then [UInt8.ofNat (Gen.Boost.encE21 value), UInt8.ofNat (Gen.Boost.encE22 value)]
+  else if Gen.Boost.encC3 value then
+    [UInt8.ofNat (Gen.Boost.encE31 value), UInt8.ofNat (Gen.Boost.encE32 value), UInt8.ofNat (Gen.Boost.encE33 value)]
+  else
+    [UInt8.ofNat (Gen.Boost.encE41 value), UInt8.ofNat (Gen.Boost.encE42 value),
+     UInt8.ofNat (Gen.Boost.encE43 value), UInt8.ofNat (Gen.Boost.encE44 value)]
+
+/-- the `code_point` a decoder call returns -/
+def code : Out → Nat
+  | .cp v => v
+  | .illegal => Gen.boostIllegal
+  | .incomplete => Gen.boostIncomplete
+
+/-- the loop of `utf_to_utf<CharOut,char>`: `none` = `throw conversion_error()`, otherwise the
+values handed to `utf_traits<CharOut>::encode`, in order.  After a rejected sequence the input
+position is wherever `decode` left it (so a non-trail byte that ended a sequence is swallowed
+with it).  Fuel = input length (`decode` consumes at least one byte of a non-empty input). -/
+def u2uFuel (how : Nat) : Nat → Bytes → Option (List Nat)
+  | _, [] => some []
+  | 0, _ :: _ => some []                                  -- unreachable
+  | fuel + 1, p@(_ :: _) =>
+    let r := decode p
+    let c := code r.1
+    if Gen.u2uIsError c then
+      if Gen.u2uThrows how then none else u2uFuel how fuel r.2
+    else (u2uFuel how fuel r.2).map (c :: ·)
+
+/-- code points produced from UTF-8 input (`utf_to_utf<wchar_t>(char const*,…)`: UTF-32 `encode`
+stores the value itself) -/
+def utf8ToCps (how : Nat) (s : Bytes) : Option (List Nat) := u2uFuel how s.length s
+
+/-- `utf_to_utf<char>(char const *begin,char const *end,how)` -/
+def utf8ToUtf8 (how : Nat) (s : Bytes) : Option Bytes :=
+  (utf8ToCps how s).map fun cs => (cs.map encode).flatten
+
+/-- `utf_traits<wchar_t>::decode` on one 32-bit unit -/
+def decode32 (c : Nat) : Out := if Gen.utf32Bad c then .illegal else .cp c
+
+/-- `utf_to_utf<char>(wchar_t const *begin,wchar_t const *end,how)` (32-bit `wchar_t`) -/
+def utf32ToUtf8 (how : Nat) : List Nat → Option Bytes
+  | [] => some []
+  | u :: rest =>
+    let c := code (decode32 u)
+    if Gen.u2uIsError c then
+      if Gen.u2uThrows how then none else utf32ToUtf8 how rest
+    else (utf32ToUtf8 how rest).map (encode c ++ ·)
+
+end Boost
+
 /-! ## whole strings -/
 
 /-- number of bytes one call of `next` consumes from a non-empty position is at least one;
